@@ -126,7 +126,47 @@ def fields(line):
 
 
 def strip_peak(line):
-    return " ".join(x for x in line.split(" ") if not x.startswith("peak="))
+    return " ".join(x for x in line.split(" ") if not x.startswith(("peak=", "enc=", "dec=")))
+
+
+def counts_ok(op, impl):
+    """`enc=` / `dec=`: how often the value type's Encode / Decode impl ran during the op.  A writer encodes a value once per `write`
+    call, a reader decodes a payload once per frame it delivers or rejects as undecodable (an impl with side effects — a counter in
+    the context, interior mutability — or a merely expensive one must not run twice, nor for frames that are never delivered)."""
+    w = op.split(" ")
+    kv = {x.split("=", 1)[0]: x.split("=", 1)[1] for x in impl.split(" ")[1:] if "=" in x}
+    name = w[0]
+    if name == "awritef":
+        w = [w[0]] + w[2:]
+    if "enc" in kv:
+        if name.startswith("fwrite"):
+            calls = len(split_list(w[2])) if w[2] != "-" else 0
+        else:
+            toks = impl.split(" ")[0].split(",")
+            acts = [] if w[4] == "-" else w[4].split(",")
+            if len(toks) != len(acts):
+                return True                      # malformed: the judge says so
+            calls = sum(1 for a in acts if a.startswith("w"))
+        return int(kv["enc"]) == calls
+    if "dec" in kv:
+        toks = impl.split(" ")[0].split(",")
+        frames = sum(1 for t in toks if t.startswith("some:") or t.startswith("err:decode"))
+        return int(kv["dec"]) == frames
+    return True
+
+
+def split_list(s):
+    return [] if s == "-" else s.split(",")
+
+
+def ml(tok):
+    """the <maxlen> argument of an op: a number, or `d` = the constructors' documented default (512 KiB of payload)."""
+    return 524288 if tok == "d" else int(tok)
+
+
+def default_limit_vals():
+    """byte strings whose frame payload is 524285 .. 524289 bytes long (the default limit is 524288)."""
+    return [("b", bytes((i * 7 + k) % 251 for i in range(n))) for k, n in enumerate(range(524280, 524285))]
 
 
 def peak_ok(kv, maxlen):
@@ -228,6 +268,10 @@ def ctor_plain(op):
 def ctor_judge(judge):
     def j(op, impl, model, spec):
         plain, c = ctor_plain(op)
+        if isinstance(impl, str) and ("enc=" in impl or "dec=" in impl):
+            if not counts_ok(plain, impl):
+                return "violation"
+            impl = " ".join(x for x in impl.split(" ") if not x.startswith(("enc=", "dec=")))
         if c in CTOR_DIRTY and isinstance(impl, str) and isinstance(model, str):
             if " buf=0" in model + " " and f" buf={CTOR_DIRTY[c]}" in impl:
                 impl = impl.replace(f" buf={CTOR_DIRTY[c]}", " buf=0")
